@@ -321,3 +321,11 @@ UNITS += [Unit('lemma:work-list-invariants-give-the-closure', None, u_closure_le
 
 from . import standins
 STANDINS = [standins.c17_closure]
+
+# the closure is taken over what a rule object yields: one product set per match of the reactant pattern (unit of C16, its own world)
+from . import C16 as _c16      # noqa: E402
+for _u in _c16.UNITS:
+    if _u.name == 'ReactionQuery.RunReactants':
+        if getattr(_u, 'world_factory', None) is None:
+            _u.world_factory = _c16.world
+        UNITS.append(_u)
